@@ -338,6 +338,16 @@ Definition py_binop (op : binop) (a b : pv) : res pv :=
     | OAdd, PList s, PList t => Ok (PList (s ++ t))
     | OAdd, PTuple s, PTuple t => Ok (PTuple (s ++ t))
     | OAdd, _, _ => Exc "TypeError"
+    | OMul, PBytes s, v | OMul, v, PBytes s =>
+        match as_int v with
+        | Some k => Ok (PBytes (List.concat (repeat s (Z.to_nat k))))
+        | None => Exc "TypeError"
+        end
+    | OMul, PStr s, v | OMul, v, PStr s =>
+        match as_int v with
+        | Some k => Ok (PStr (String.concat "" (repeat s (Z.to_nat k))))
+        | None => Exc "TypeError"
+        end
     | _, _, _ => Unsupported "binop"
     end
     end
@@ -1131,9 +1141,19 @@ Section Interp.
             | None => Unsupported "__setattr__"
             end
         | None =>
-            match path_set P e (EAttr q a) v with
-            | Some e' => Ok e'
-            | None => Unsupported "assignment target"
+            match lookup a fs, find_method P mro_depth c (a ++ "$setter") with
+            | None, Some f =>
+                (* a property with a setter *)
+                do r <- callf f [PObj c fs; v] [];
+                match snd r with
+                | Some s => match path_set P e q s with Some e' => Ok e' | None => Unsupported "assignment target" end
+                | None => Unsupported "property setter"
+                end
+            | _, _ =>
+                match path_set P e (EAttr q a) v with
+                | Some e' => Ok e'
+                | None => Unsupported "assignment target"
+                end
             end
         end
     | _ => Unsupported "assignment target"
